@@ -1,12 +1,14 @@
 CHECK = {
     "gen": [{"pkg": "extract_c11", "out": "lean/ClusterVerif/Gen/C11.lean"},
-            {"pkg": "extract_c11b", "out": "lean/ClusterVerif/Gen/C11Send.lean"}],
+            {"pkg": "extract_c11b", "out": "lean/ClusterVerif/Gen/C11Send.lean"},
+            {"pkg": "extract_c11c", "out": "lean/ClusterVerif/Gen/C11Client.lean"}],
     "suites": [suite("routes", "c11", 6000, 250000, stdin=True),
                suite("client", "c11", 2500, 60000, stdin=True, args=["-suite", "client"]),
                suite("add", "c11", 1500, 40000, stdin=True, args=["-suite", "add"])],
     "lean_sources": ["ClusterVerif/Model/Pin.lean", "ClusterVerif/Model/C11.lean", "ClusterVerif/Spec/C11.lean",
                      "ClusterVerif/Gen/C11.lean", "ClusterVerif/Lemmas/C11.lean",
-                     "ClusterVerif/Model/C11Send.lean", "ClusterVerif/Gen/C11Send.lean"],
+                     "ClusterVerif/Model/C11Send.lean", "ClusterVerif/Gen/C11Send.lean",
+                     "ClusterVerif/Model/C11Client.lean", "ClusterVerif/Gen/C11Client.lean"],
     "rule": "every case carries the server configuration sv=<Tracing><HTTPLogFile><TLS> (8 configurations, servers built on demand; a systematic sweep per non-default configuration, 1/3 of the random cases); routes suite: a fixed systematic sweep of 14.8k requests (every route template and 14 unknown paths x 7 methods x each path part valid/invalid x 47 credential situations = no credentials configured / two users / one user x the header grid {none, not base64, other scheme, no colon, known user x right|wrong|empty|other user's password, unknown user x configured|arbitrary|empty password, empty user x empty|right password, user name equal to a password, lower-case scheme}; "
             "every pin option valid / empty / each invalid variant and shadowing combinations on the 7 routes that parse pin options; local/filter values; "
             "JSON bodies; trailing-slash, unclean paths, CORS preflights; the three cluster answers) followed by seeded random requests "
@@ -19,7 +21,8 @@ CHECK = {
                      "net/http error log as panic detector",
                      "the harness's classification of each request part with cid.Decode / peer.Decode and its naming tables",
                      "go/ast extractor extract_c11 (route table, handler chain per value of cfg.Tracing by symbolic execution of NewAPIWithHost, RPC names per handler, decision logic of basicAuthHandler)",
-                     "go/ast extractor extract_c11b (body of sendResponse as a decision table, every api.sendResponse call site with status / error / value arguments and its guard on err)"],
+                     "go/ast extractor extract_c11b (body of sendResponse as a decision table, every api.sendResponse call site with status / error / value arguments and its guard on err)",
+                     "go/ast extractor extract_c11c (every method of the bundled client that sends a request: verb, path template pieces with the escaping class of each hole, query pieces, body, pre-send refusals; the switch of handleResponse)"],
     "assumptions": ["a repeated query parameter counts with its first occurrence; an empty value counts as absent",
                     "HTTP-defined bodiless responses (204, HEAD), CORS preflights and the 3xx redirect of a non-canonical path are exempt from the single-JSON-document clause",
                     "options that mean nothing to the addressed route (pin options on status/recover/unpin routes, local other than true/false, unknown filter) may be ignored or refused"],
@@ -31,7 +34,7 @@ META = {
             "exactly the CID/path/options carried; responses are single JSON documents. On /add, AddParamsFromQuery is modelled field by field in the order the code applies "
             "the cid-version / hash / raw-leaves interplay (add_seen_exact: every accepted query yields AddParams carrying each add option exactly, an explicit raw-leaves or "
             "cid-version always wins; the reordered alternative is refuted with a witness) and compared with the real function and with the leaf form of the blocks put. "
-            "sendResponse is translated statement by statement into a decision table that Lean interprets: for every status, error and value exactly one WriteHeader, at most one document, an error always answered >= 400 (the variant without the status<400 floor is refuted), and every handler's extracted sendResponse call sites (status argument, error argument, guard on err, return after a conditional answer) give exactly the status and document count of the model arm for each cluster answer. The model is tied to the code by regenerating the route table, wrapping "
+            "sendResponse is translated statement by statement into a decision table that Lean interprets: for every status, error and value exactly one WriteHeader, at most one document, an error always answered >= 400 (the variant without the status<400 floor is refuted), and every handler's extracted sendResponse call sites (status argument, error argument, guard on err, return after a conditional answer) give exactly the status and document count of the model arm for each cluster answer. Every method of the bundled client (api/rest/client/methods.go) is translated into a table row (verb, path pieces with the escaping applied to each hole, query keys, body) that Lean interprets: the model's client request builder equals the interpretation of the regenerated table for every call (build_interpreted), every row addresses the route named like the method, no hole is filled unescaped, and client_server_inverse holds per row; handleResponse's status switch is regenerated and proved equal to the model's decoding. The model is tied to the code by regenerating the route table, wrapping "
             "order and per-handler RPC names on every run (decide theorems over them) and by sending thousands of requests to the real API over recording RPC "
             "services, comparing status, body shape and recorded operations with the model and evaluating the Lean property clauses on the implementation's outputs.",
     "note": "Trusted: Lean kernel, hand-written model/spec, harness (recording services, classification of inputs), extractor. Known deviations of the unchanged tree "
